@@ -708,3 +708,152 @@ Proof.
   - exact (fl_rate_zero_when_weight_zero p (b_est b) now Hs Hd H1 H2).
   - exact (fl_eta_zero_when_weight_zero p b now Hs Hd H1 H2).
 Qed.
+
+(** * eta() / duration() cannot panic in binary64: [secs_to_duration] (state.rs:692-696:
+    [s.trunc() as u64], [(s.fract() * 1e9) as u32], [Duration::new]) is TOTAL on every binary64
+    datum - NaN, +-infinity, negative, subnormal, huge.  The only way [Duration::new] can panic is
+    a carry out of the nanoseconds on top of u64::MAX seconds; the seconds can only be that large
+    for an integral s, whose fractional part is +0. *)
+Lemma btrunc_ztrunc : forall x : F, Btrunc x = Ztrunc (B2R x).
+Proof.
+  intros x. apply eq_IZR. rewrite (Btrunc_correct 53 1024 FL.Hm x). apply round_FIX_IZR.
+Qed.
+
+Lemma finite_B2R0_zero : forall y : F, is_finite y = true -> B2R y = 0 -> FL.fis_zero y = true.
+Proof.
+  intros [s| | |s m e H] Fy E; try discriminate Fy; [reflexivity|].
+  exfalso. cbn [B2R] in E. apply eq_0_F2R in E. destruct s; discriminate E.
+Qed.
+
+Lemma fcast_le_max : forall max y, (FL.fcast max y <= max)%N.
+Proof.
+  intros max [s|s| |s m e H]; cbn [FL.fcast];
+    [lia | destruct s; lia | lia | destruct s; [lia | apply N.le_min_l]].
+Qed.
+
+Definition P62 : N := 4611686018427387904.   (* 2^62 *)
+
+Lemma fcast_small : forall max (y : F), is_finite y = true -> B2R y <= bpow radix2 62 ->
+  (FL.fcast max y <= P62)%N.
+Proof.
+  intros max y Fy Hy. destruct y as [s| | |s m e H]; try discriminate Fy; cbn [FL.fcast].
+  - unfold P62. lia.
+  - destruct s; [unfold P62; lia|].
+    apply N.le_trans with (Z.to_N (Btrunc (B754_finite false m e H))); [apply N.le_min_r|].
+    rewrite btrunc_ztrunc.
+    assert (H0 : 0 <= B2R (B754_finite false m e H)).
+    { cbn [B2R cond_Zopp]. apply F2R_ge_0. cbn [Fnum]. lia. }
+    set (v := B2R (B754_finite false m e H)) in *.
+    assert (Hz : (Ztrunc v <= 2 ^ 62)%Z).
+    { apply le_IZR. rewrite (Ztrunc_floor v H0).
+      apply Rle_trans with v; [apply Zfloor_lb|]. exact Hy. }
+    unfold P62. lia.
+Qed.
+
+Lemma fin_small : forall s m e (H : SpecFloat.bounded 53 1024 m e = true), (e < 0)%Z ->
+  Rabs (B2R (B754_finite s m e H : F)) < bpow radix2 52.
+Proof.
+  intros s m e H He. cbn [B2R].
+  assert (Hc : SpecFloat.canonical_mantissa 53 1024 m e = true).
+  { unfold SpecFloat.bounded in H. apply andb_prop in H. exact (proj1 H). }
+  pose proof (canonical_canonical_mantissa 53 1024 s m e Hc) as Hcan.
+  unfold canonical, cexp in Hcan. cbn [Fexp] in Hcan.
+  set (x := F2R (Float radix2 (cond_Zopp s (Z.pos m)) e)) in *.
+  assert (Hm : (mag radix2 x <= 52)%Z).
+  { unfold SpecFloat.fexp, FLT_exp in Hcan. lia. }
+  apply Rlt_le_trans with (bpow radix2 (mag radix2 x)); [apply bpow_mag_gt | now apply bpow_le].
+Qed.
+
+Lemma no_overflow_abs : forall x, Rabs x <= bpow radix2 1023 ->
+  Rlt_bool (Rabs (round radix2 (SpecFloat.fexp 53 1024) (round_mode mode_NE) x)) (bpow radix2 1024) = true.
+Proof.
+  intros x H. apply Rlt_bool_true.
+  change (SpecFloat.fexp 53 1024) with fexp64. cbn [round_mode].
+  apply Rle_lt_trans with (bpow radix2 1023).
+  - apply abs_round_le_generic; auto with typeclass_instances. apply fmt_bpow. lia.
+  - apply bpow_lt. lia.
+Qed.
+
+(** trunc() of a finite number with a negative exponent: finite and below 2^52 *)
+Lemma ftrunc_small : forall s m e (H : SpecFloat.bounded 53 1024 m e = true), (e < 0)%Z ->
+  let y := FL.of_Z (Btrunc (B754_finite s m e H : F)) s in
+  is_finite y = true /\ B2R y <= bpow radix2 62.
+Proof.
+  intros s m e H He y. unfold y, FL.of_Z.
+  set (x := B754_finite s m e H : F).
+  assert (Hx := fin_small s m e H He). fold x in Hx.
+  pose proof (binary_normalize_correct 53 1024 FL.Hp FL.Hm mode_NE (Btrunc x) 0 s) as Hn.
+  cbv zeta in Hn.
+  assert (E : F2R (Float radix2 (Btrunc x) 0) = IZR (Btrunc x)) by (unfold F2R; simpl; ring).
+  rewrite E in Hn.
+  assert (Hz : Rabs (IZR (Btrunc x)) <= Rabs (B2R x)).
+  { rewrite btrunc_ztrunc, <- abs_IZR, <- Ztrunc_abs.
+    rewrite (Ztrunc_floor _ (Rabs_pos _)). apply Zfloor_lb. }
+  rewrite no_overflow_abs in Hn.
+  - destruct Hn as (H1 & H2 & _). split; [exact H2|]. rewrite H1.
+    change (SpecFloat.fexp 53 1024) with fexp64. cbn [round_mode].
+    apply RN_le_bpow; [lia|].
+    apply Rle_trans with (Rabs (IZR (Btrunc x))); [apply Rle_abs|].
+    apply Rle_trans with (1 := Hz). apply Rle_trans with (bpow radix2 52); [lra|].
+    apply bpow_le. lia.
+  - apply Rle_trans with (1 := Hz). apply Rle_trans with (bpow radix2 52); [lra|]. apply bpow_le. lia.
+Qed.
+
+Lemma dur_new_some : forall secs nanos, (secs <= U64MAX)%N -> (nanos <= U32MAX)%N ->
+  (secs <= P62)%N \/ nanos = 0%N -> exists d, dur_new secs nanos = Some d.
+Proof.
+  intros secs nanos Hs Hn Hc. unfold dur_new.
+  assert (Hq : (nanos / NS_PER_SEC <= 5)%N).
+  { apply N.div_le_upper_bound; [discriminate|]. unfold NS_PER_SEC, U32MAX in *. lia. }
+  assert (G : (secs + nanos / NS_PER_SEC <=? U64MAX)%N = true).
+  { apply N.leb_le. destruct Hc as [Hc | Hc].
+    - unfold P62, U64MAX in *. lia.
+    - subst nanos. rewrite N.div_0_l by discriminate. lia. }
+  rewrite G. eexists. reflexivity.
+Qed.
+
+Theorem fl_secs_to_duration_total : forall p (x : F),
+  exists d, secs_to_duration (FL.arp p) x = Some d.
+Proof.
+  intros p x. unfold secs_to_duration.
+  change (cast (FL.arp p)) with FL.fcast. change (trunc (FL.arp p)) with FL.ftrunc.
+  change (mul (FL.arp p)) with fmul. change (sub (FL.arp p)) with fsub.
+  apply dur_new_some; try apply fcast_le_max.
+  destruct x as [s|s| |s m e H].
+  - (* zero *) left. cbn [FL.ftrunc FL.fcast]. unfold P62. lia.
+  - (* infinity: inf - inf = NaN *) right. cbn [FL.ftrunc]. destruct s; reflexivity.
+  - (* NaN *) right. reflexivity.
+  - cbn [FL.ftrunc]. destruct (0 <=? e)%Z eqn:Ge.
+    + (* integral: the fractional part is a zero *)
+      right. set (x := B754_finite s m e H : F).
+      pose proof (Bminus_correct 53 1024 FL.Hp FL.Hm mode_NE x x eq_refl eq_refl) as Hm.
+      replace (B2R x - B2R x) with 0 in Hm by ring.
+      rewrite round_0, Rabs_R0 in Hm by auto with typeclass_instances.
+      rewrite Rlt_bool_true in Hm by apply bpow_gt_0.
+      destruct Hm as (E0 & F0 & _).
+      assert (Z0 := finite_B2R0_zero _ F0 E0).
+      destruct (fsub x x) as [s0| | |s0 m0 e0 H0]; try discriminate Z0.
+      destruct (of_int_bnd p NS_PER_SEC ltac:(unfold NS_PER_SEC, U64; lia)) as [(FN & _) _].
+      destruct (of_int (FL.arp p) NS_PER_SEC) as [s1| | |s1 m1 e1 H1]; try discriminate FN; reflexivity.
+    + (* |s| < 2^52 *)
+      left. apply Z.leb_gt in Ge.
+      destruct (ftrunc_small s m e H Ge) as [Fy Hy]. now apply fcast_small.
+Qed.
+
+(** eta() and duration() return for EVERY state of the bar, every clock reading, every powf *)
+Theorem fl_eta_duration_total : forall p (b : bar F) now,
+  (exists d, bar_eta (FL.arp p) b now = Some d) /\
+  (exists d, bar_duration (FL.arp p) b now = Some d).
+Proof.
+  intros p b now.
+  assert (He : exists d, bar_eta (FL.arp p) b now = Some d).
+  { unfold bar_eta. change (T (FL.arp p)) with F in *.
+    destruct (b_done b); [eexists; reflexivity|].
+    destruct (b_len b); [|eexists; reflexivity].
+    destruct (is_zero (FL.arp p) (est_sps (FL.arp p) (b_est b) now)); [eexists; reflexivity|].
+    apply fl_secs_to_duration_total. }
+  split; [exact He|].
+  destruct He as [d Hd]. unfold bar_duration. change (T (FL.arp p)) with F in *. rewrite Hd.
+  destruct (b_len b); [|eexists; reflexivity].
+  destruct (b_done b); eexists; reflexivity.
+Qed.
